@@ -337,9 +337,58 @@ def check_ops_translate_expression(ctx: Ctx, te: FuncInfo):
     unf = te.nested.get("unfold")
     if unf is None:
         raise AnchorError(TE + ".unfold", "not found")
+    role = "n-ary and/or folded over all operands in order"
+    vp, opp = (unf.params + ["?", "?"])[:2]
     r = q.returns(unf)[0].value
-    ok = isinstance(r, ast.IfExp) and norm(r.body).replace(" ", "") == "op(v_exps[0],unfold(v_exps[1:],op))" and norm(r.orelse) == "v_exps[0]"
-    ctx.check(ok, "DP-OPS", unf, "n-ary and/or folded over all operands in order", "", f"`{norm(r)}` drops or re-orders operands", unf.node)
+    rec_calls = [c for c in q.calls(unf.node) if isinstance(c.func, ast.Name) and c.func.id == unf.name]
+    loops_u = q.for_loops(unf.node)
+
+    def idx_of(e):
+        """(sequence name, 'first' | 'last' | 'rest-forward' | 'rest-backward' | None)"""
+        if not (isinstance(e, ast.Subscript) and isinstance(e.value, ast.Name)):
+            return None, None
+        sl = e.slice
+        t = norm(sl).replace(" ", "")
+        kind = {"0": "first", "-1": "last", "1:": "rest-forward", "1::": "rest-forward", "-2::-1": "rest-backward", ":-1": "init-forward", ":-1:": "init-forward"}.get(t)
+        return e.value.id, kind
+
+    if rec_calls and isinstance(r, ast.IfExp):
+        # op(v[0], unfold(v[1:], op)) if len(v) > 1 else v[0]
+        b, o = r.body, r.orelse
+        okb = isinstance(b, ast.Call) and norm(b.func) == opp and len(b.args) == 2
+        parts = []
+        if okb:
+            for a_ in b.args:
+                if isinstance(a_, ast.Call) and isinstance(a_.func, ast.Name) and a_.func.id == unf.name and a_.args:
+                    parts.append(idx_of(a_.args[0])[1])
+                else:
+                    parts.append(idx_of(a_)[1])
+        good = okb and sorted(str(x) for x in parts) in (["first", "rest-forward"], ["init-forward", "last"]) and idx_of(o)[1] in ("first", "last")
+        if okb and None in parts:
+            ctx.undecided(unf.short, f"DP-OPS [{role}]: the recursive fold splits its operands in a way outside the tables (`{norm(r)[:70]}`)")
+        else:
+            ctx.check(good, "DP-OPS", unf, role, norm(r)[:60], f"`{norm(r)[:90]}` drops or repeats operands: the fold must combine one end of the list with the fold of ALL the others", unf.node)
+    elif len(loops_u) == 1 and not rec_calls:
+        # acc = v[-1]; for x in v[-2::-1]: acc = op(x, acc)   /   acc = v[0]; for x in v[1:]: acc = op(acc, x)
+        l_ = loops_u[0]
+        steps = [s_ for s_ in l_.body if isinstance(s_, ast.Assign) and len(s_.targets) == 1 and isinstance(s_.targets[0], ast.Name) and isinstance(s_.value, ast.Call) and norm(s_.value.func) == opp]
+        inits = [s_ for s_ in unf.body if isinstance(s_, ast.Assign) and len(s_.targets) == 1 and isinstance(s_.targets[0], ast.Name) and steps and s_.targets[0].id == steps[0].targets[0].id]
+        if len(steps) != 1 or len(inits) != 1 or not isinstance(l_.target, ast.Name) or not (isinstance(r, ast.Name) and r.id == steps[0].targets[0].id):
+            ctx.undecided(unf.short, f"DP-OPS [{role}]: the loop is not one accumulating step `acc = {opp}(.., ..)` from one initial operand")
+        else:
+            acc, x = steps[0].targets[0].id, l_.target.id
+            used = sorted(norm(a_) for a_ in steps[0].value.args)
+            cover = (idx_of(inits[0].value)[1], idx_of(l_.iter)[1])
+            good = used == sorted([acc, x]) and cover in (("last", "rest-backward"), ("first", "rest-forward"))
+            if None in cover:
+                ctx.undecided(unf.short, f"DP-OPS [{role}]: initial operand `{norm(inits[0].value)}` and loop range `{norm(l_.iter)}` are outside the tables")
+            else:
+                ctx.check(good, "DP-OPS", unf, role, f"{norm(inits[0])}; for {x} in {norm(l_.iter)}: {norm(steps[0])}", f"`{norm(inits[0])}` with `for {x} in {norm(l_.iter)}: {norm(steps[0])}` does not combine every operand exactly once", l_)
+    elif any(isinstance(c.func, ast.Name) and c.func.id == "reduce" or (dotted(c.func) or "").endswith(".reduce") for c in q.calls(unf.node)):
+        rc = [c for c in q.calls(unf.node) if (dotted(c.func) or "").split(".")[-1] == "reduce"][0]
+        ctx.check(len(rc.args) >= 2 and norm(rc.args[0]) == opp and norm(rc.args[1]) == vp, "DP-OPS", unf, role, norm(rc), f"`{norm(rc)}` does not reduce the operand list with the connective", rc)
+    else:
+        ctx.undecided(unf.short, f"DP-OPS [{role}]: `{norm(r)[:60]}` is neither the recursive nor an accumulating fold")
     nt = [x for x in walk_no_nested(te.node) if isinstance(x, ast.If) and norm(x.test) == f"isinstance({var}.op, ast.Not)"]
     ok = len(nt) == 1 and any(isinstance(s, ast.Return) and norm(s.value) == "(bool, Not(exp))" for s in nt[0].body)
     ctx.check(ok, "DP-OPS", te, "`not` -> Not", "", "", te.node)
